@@ -6,7 +6,7 @@ sid=$1; shift
 wt=/tmp/trywt_$sid; vc=/tmp/tryv_$sid
 git -C /repo worktree remove --force $wt 2>/dev/null
 git -C /repo worktree add -q $wt HEAD || exit 2
-(cd $wt && git apply /verif/seeded/$sid/patch.diff) || { git -C /repo worktree remove --force $wt; exit 2; }
+(cd $wt && (git apply /verif/seeded/$sid/patch.diff || git apply --3way /verif/seeded/$sid/patch.diff)) || { git -C /repo worktree remove --force $wt; exit 2; }
 rm -rf $vc; mkdir -p $vc
 rsync -a --exclude .git --exclude replays --exclude 'build/cases' /verif/ $vc/
 cd $vc
